@@ -1,5 +1,5 @@
 """C37 — Header subscriptions deliver a gap-free increasing stream ('only after stored' clause)."""
-from engine.rules import Cmp, Has, call_expr, call_sites_with, require_guard
+from engine.rules import AnyOf, Cmp, Has, call_expr, call_sites_with, require_guard
 from engine.mir import has_all, has_leaf, norm_proj
 
 B = "lumina_node::node::subscriptions::BroadcastingStore::<S>::"
@@ -25,7 +25,10 @@ def run(ctx):
             require_guard(ctx, f, Has("call:lumina_node::store::Store::insert", "self.inner", "range", name="?inner.insert(range) before anything is announced"), "C37.stored-first", targets=sends)
             require_guard(ctx, f, Cmp(["range", "call:*ExtendedHeader::height"], ["self.last_sent_height"], pass_op="Ge", name="historical ranges (below last sent height) are never announced"), "C37.not-historical", targets=sends)
             for b in sends:
-                require_guard(ctx, f, Cmp(["self.last_sent_height"], ["call:*ExtendedHeader::height"], pass_op="Eq", name="last_sent_height + 1 == first height of the announced range"), "C37.consecutive", targets=[b], what="send at %s only for the range that continues the stream" % f.loc(b))
+                require_guard(ctx, f, AnyOf(Cmp(["self.last_sent_height"], ["call:*ExtendedHeader::height"], pass_op="Eq"),
+                                            # the same comparison made inside the predicate of a search over the pending ranges
+                                            Has(["call:*Iterator::position", "call:*Iterator::find", "call:*Iterator::rposition"], "self.last_sent_height", "call:*ExtendedHeader::height", "self.pending"),
+                                            name="last_sent_height + 1 == first height of the announced range"), "C37.consecutive", targets=[b], what="send at %s only for the range that continues the stream" % f.loc(b))
         # the pending drain: when the drain is an index loop over self.pending (today's idiom), sending a
         # range moves last_sent_height, so ranges that were skipped earlier in the pass may have become
         # adjacent: the scan index must restart at 0 on the way back to the loop head. Other idioms
@@ -44,6 +47,19 @@ def run(ctx):
                     idx = (defs[0][4]["a"].get("cp") or defs[0][4]["a"].get("mv"))["l"]
                 else:
                     break
+            # an index scan increments the index somewhere in the loop (`i += 1`); a position search
+            # (`while let Some(p) = pending.iter().position(..)`) does not and is not judged
+            incr = False
+            for x in range(f.n):
+                for st in f.stmts(x):
+                    if st["d"]["l"] == idx and not st["d"].get("p"):
+                        e = f.expr_rvalue(st["r"], (), x, 0)
+                        from engine.mir import walk as _w
+                        if any(n[0] == "bin" and n[1].startswith("Add") for n in _w(e)):
+                            incr = True
+            if not incr:
+                ctx.notes.append("C37.pending.rescan: the pending drain is not an index scan; not judged")
+                continue
             in_loop = b in f.reachable_from(f.succ(b))
             inloop_sends = [x for x in sends if x in f.reachable_from([b]) and b in f.reachable_from([x])]
             if not (in_loop and inloop_sends):
